@@ -39,7 +39,7 @@ KINDS = ["white", "red", "alpha", "pink"]
 
 def budget(tier):
     # some workers run with the Numba JIT disabled (interpreted kernels / any pure-Python fallback the library may have)
-    variants = [{}] * 7 + [{"NUMBA_DISABLE_JIT": "1"}]
+    variants = [{}] * 6 + [{"NUMBA_DISABLE_JIT": "1"}, {"PYTHONOPTIMIZE": "1"}]      # ... and one with assert statements stripped (-O)
     if tier == "thorough":
         return {"n": 400000, "wall_s": 900, "workers": 16, "selftest": 48, "env_variants": variants}
     return {"n": 4800, "wall_s": 50, "workers": 16, "selftest": 6, "env_variants": variants}
@@ -67,6 +67,8 @@ def _gen_spec(rw, kind):
     # seeds: mostly arbitrary, sometimes the edge values a "falsy"/overflow bug would trip over
     seed = rw.choice([0, 0, 1, 2 ** 32 - 1, 2 ** 32, 2 ** 63]) if rw.random() < 0.15 else rw.randrange(0, 2 ** 32)
     spec = {"kind": kind, "fs": fs, "seed": seed}
+    if seed < 2 ** 63 and rw.random() < 0.15:
+        spec["seed_type"] = "np.int64"          # a seed NumPy accepts that is not a Python int
     if kind == "white":
         spec["psd"] = rw.choice([1.0, 0.01, 100.0, round(rw.uniform(0.1, 10), 3)])
     else:
@@ -200,6 +202,8 @@ def _build(spec):
     from speckit import noise
 
     k = spec["kind"]
+    if spec.get("seed_type") == "np.int64":
+        spec = dict(spec, seed=np.int64(spec["seed"]))
     if k == "white":
         return noise.white_noise(spec["fs"], psd=spec["psd"], seed=spec["seed"])
     if k == "red":
@@ -332,6 +336,18 @@ def execute(sc, out):
                     continue
                 # keep the returned array itself (no defensive copy): a caller concatenates the blocks later, so a block
                 # that the generator recycles for a later request corrupts the stream the caller sees
+            elif (n + len(hist[g])) % 6 == 0:
+                # the run is continued from another thread (strictly sequential hand-off: start, join)
+                import threading
+
+                box = []
+                th = threading.Thread(target=lambda: box.append([inst[g].get_sample() for _ in range(n)]))
+                th.start()
+                th.join()
+                a = np.array(box[0] if box else [], dtype=np.float64)
+                out.count("sample_run_continued_in_other_thread")
+                if a.shape != (n,):
+                    raise RuntimeError("get_sample failed in the helper thread")
             else:
                 a = np.array([inst[g].get_sample() for _ in range(n)], dtype=np.float64)
         except Exception as e:
@@ -489,7 +505,7 @@ def _cross_process_check(sc, g, out):
     except Exception:
         return
     env = dict(os.environ, PYTHONHASHSEED=str(1000 + (sc.get("seed", 0) % 1000)))
-    p = subprocess.run([sys.executable, "-c", _XPROC, _json.dumps({k: v for k, v in spec.items() if k not in ("mode", "cousin_of", "twin_of")}), str(n)],
+    p = subprocess.run([sys.executable, "-c", _XPROC, _json.dumps({k: v for k, v in spec.items() if k not in ("mode", "cousin_of", "twin_of", "seed_type")}), str(n)],
                        capture_output=True, env=env, timeout=300)
     out.count("instance_in_fresh_interpreter")
     if p.returncode != 0:
